@@ -61,6 +61,19 @@ class Session:
             results = engine.explore(run, max_paths=max_paths)
         except Unsupported as e:
             raise CheckerError("unsupported construct while verifying %s: %s" % (unit.name, e))
+        # an exception that escapes the harness is one no contract clause permits
+        import z3 as _z3
+        from .engine import Obligation as _Ob
+        for r in results:
+            if r.outcome == "raise":
+                tags = set()
+                for ob in engine.obligations:
+                    tags.update(t for t in ob.props if t != "*")
+                ob = _Ob("no-exception:%s raises %s (no contract clause permits it)" % (unit.name, r.exc.exc),
+                         tuple(sorted(tags)) or ("*",), list(r.state.pc), _z3.BoolVal(False),
+                         where=str(getattr(r.exc.node, "lineno", "")))
+                ob.path = unit.name + ":" + ",".join(map(str, r.decisions))
+                engine.obligations.append(ob)
         unit.paths += len(results)
         unit.feasible_exits += sum(1 for r in results if r.outcome in ("return", "raise"))
         unit.obligations.extend(engine.obligations)
